@@ -144,7 +144,8 @@ def tol_for(case) -> float:
     s = case["shift"]
     if is_int_shift(s):
         if case["est"] == "numpy":
-            return TOL_EXACT_NP
+            # numpy >= 2 keeps single precision in np.fft: float32 images give a complex64 correlation
+            return TOL_EXACT_NP if case.get("np_dtype", "float64") != "float32" else 2e-3
         return TOL_EXACT_T if case.get("dtype", "float64") == "float64" else 2e-3
     # sub-pixel: one upsampled pixel; without upsampling the 3-point parabola's vertex lies within
     # half a pixel of the coarse peak (C13_parabola_within_half) on the side of the larger
@@ -283,6 +284,12 @@ def gen_cases(ctx: Ctx):
         if kind == "half-size":
             return [float(M // 2), float(r.randint(0, N - 1))] if r.random() < 0.5 else \
                 [float(r.randint(0, M - 1)), float((N + 1) // 2)]
+        if kind == "half-both":
+            # correlation peak exactly on the half-size boundary of both axes (even sizes): the centred
+            # cell is half open, so -n/2 is the value in range; +n/2 - ulp is what float rounding of the
+            # refined peak may legitimately give (judged modulo the size, and |component| <= n/2)
+            return [float(M // 2 if M % 2 == 0 else r.randint(0, M - 1)),
+                    float(N // 2 if N % 2 == 0 else r.randint(0, N - 1))]
         if kind == "wrap":
             # offset -shift in [n/2 - 1, n/2 + 1): around the seam of the centred cell [-n/2, n/2)
             return [-(M / 2.0 + r.choice([-0.75, -0.25, 0.0, 0.125, 0.25, 0.375, 0.75])),
@@ -303,6 +310,11 @@ def gen_cases(ctx: Ctx):
             for kind in ("zero", "int", "int", "half-size", "sub", "sub", "wrap"):
                 cases.append(one(est, kind, up))
             cases.append(one(est, "wrap", up, r.choice([(9, 9), (15, 20), (21, 13), (17, 17)])))
+    # the correlation peak exactly on the half-size boundary of both axes, every factor, both estimators
+    for est in ("numpy", "torch"):
+        for up in UPS:
+            cases.append(one(est, "half-both", up, r.choice([(8, 8), (12, 16), (16, 16), (24, 24), (32, 32)]),
+                             img=r.choice(["bl", "int"])))
     # max_shift that admits the applied shift but masks a neighbour of the peak, every factor
     for up in UPS:
         for kind in ("int", "sub", "zero"):
@@ -741,7 +753,8 @@ def check_coordinates(ctx: Ctx):
                     % (cnat(up), cq(fr(hx)), cnat(up), cq(fr(hy)), cnat(up), cnat(up),
                        cnat(up), cnat(up), cnat(W), cnat(up), cnat(up), cnat(W), cnat(up), cnat(up), cnat(W)))
                 meta.append(("torch", M, N, up, (hx, hy), W))
-    vals = ctx.coq_eval("coords", PRE, exprs, shard=8)
+    vals = ctx.coq_eval("coords", PRE, exprs + [GEOM_EXPR], shard=8)
+    geom_vals = vals.pop()          # the model's window geometry for every factor 1..64 (check_every_factor)
     nd = 0
     for (est, M, N, up, xy, W), v in zip(meta, vals):
         problems = []
@@ -798,6 +811,470 @@ def check_coordinates(ctx: Ctx):
                           {"kind": "oracle", "case": public(case), "returned": res, "oracle": [b[1] for b in obad]},
                           found_input=bool(obad))
     ctx.log("window coordinates: %d configurations, %d disagreements" % (len(meta), nd))
+    return geom_vals
+
+
+# --------------------------------------------------------------------------- round 3: dtype / memory-layout variants
+NP_VARIANTS = ["f32", "f32-mixed", "int16", "fortran", "strided", "negstride", "stack-view", "fft-strided"]
+T_VARIANTS = ["transposed", "strided", "stack-view", "f32-transposed", "f32-stack-view"]
+
+
+def np_variant_arrays(variant, ref, im):
+    """(a, b, fft_input) equal in value to (ref, im) but with another dtype / memory layout"""
+    M, N = ref.shape
+    if variant == "f32":
+        return ref.astype(np.float32), im.astype(np.float32), False
+    if variant == "f32-mixed":
+        return ref, im.astype(np.float32), False
+    if variant == "int16":
+        return ref.astype(np.int16), im.astype(np.int16), False
+    if variant == "fortran":
+        return np.asfortranarray(ref), np.asfortranarray(im), False
+    if variant == "strided":
+        big_a = np.full((2 * M, 3 * N), 7.25)
+        big_b = np.full((2 * M, 3 * N), -3.5)
+        big_a[::2, ::3] = ref
+        big_b[::2, ::3] = im
+        return big_a[::2, ::3], big_b[::2, ::3], False
+    if variant == "negstride":
+        return ref[::-1, ::-1].copy()[::-1, ::-1], im[::-1, ::-1].copy()[::-1, ::-1], False
+    if variant == "stack-view":
+        st = np.stack([np.full((M, N), 1.5), ref, im], axis=-1)       # images interleaved along the last axis
+        return st[..., 1], st[..., 2], False
+    if variant == "fft-strided":
+        Fa = np.asfortranarray(np.fft.fft2(ref))
+        Fb = np.asfortranarray(np.fft.fft2(im))
+        return Fa, Fb, True
+    raise ValueError(variant)
+
+
+def t_variant_tensors(variant, ref, im):
+    import torch
+    td = torch.float32 if variant.startswith("f32") else torch.float64
+    v = variant[4:] if variant.startswith("f32-") else variant
+    if v == "transposed":
+        return torch.tensor(np.ascontiguousarray(ref.T), dtype=td).T, torch.tensor(np.ascontiguousarray(im.T), dtype=td).T
+    if v == "strided":
+        M, N = ref.shape
+        big_a = torch.full((2 * M, 2 * N), 7.25, dtype=td)
+        big_b = torch.full((2 * M, 2 * N), -3.5, dtype=td)
+        big_a[::2, ::2] = torch.tensor(ref, dtype=td)
+        big_b[::2, ::2] = torch.tensor(im, dtype=td)
+        return big_a[::2, ::2], big_b[::2, ::2]
+    if v == "stack-view":
+        st = torch.tensor(np.stack([ref, im], axis=-1), dtype=td)
+        return st[..., 0], st[..., 1]
+    raise ValueError(variant)
+
+
+def run_variant(case, ref, im):
+    """the estimator on the variant arrays; same conventions as run_est"""
+    from quantem.core.utils import imaging_utils as iu
+    v = case["variant"]
+    try:
+        if case["est"] == "numpy":
+            a, b, fft_in = np_variant_arrays(v, ref, im)
+            with np.errstate(all="ignore"):
+                out = iu.cross_correlation_shift(a, b, upsample_factor=case["up"], fft_input=fft_in)
+            return [float(out[0]), float(out[1])]
+        a, b = t_variant_tensors(v, ref, im)
+        assert not (a.is_contiguous() and b.is_contiguous())
+        out = iu.cross_correlation_shift_torch(a, b, upsample_factor=case["up"])
+        return [float(out[0]), float(out[1])]
+    except AssertionError:
+        raise
+    except Exception as e:  # noqa: BLE001
+        case["_raised"] = "%s: %s" % (type(e).__name__, str(e)[:200])
+        return [float("nan"), float("nan")]
+
+
+def check_variants(ctx: Ctx):
+    """float32 / integer dtypes and non-contiguous inputs: the property text evaluated on the result (tolerance
+    of the dtype the implementation computes in), and for integer shifts agreement with the contiguous
+    float64 call on the same data"""
+    r = ctx.rng
+    nbad = 0
+    todo = [("numpy", v) for v in NP_VARIANTS] + [("torch", v) for v in T_VARIANTS]
+    extra = ctx.budget(26, 600)
+    todo = todo + [r.choice(todo) for _ in range(extra)]
+    for est, variant in todo:
+        M, N = r.choice(SHAPES)
+        up = r.choice(UPS)
+        kind = r.choice(["int", "int", "sub", "zero", "half-size"]) if variant != "int16" else r.choice(["int", "zero"])
+        if kind == "int":
+            s = [float(r.randint(-M, 2 * M)), float(r.randint(-N, 2 * N))]
+        elif kind == "zero":
+            s = [0.0, 0.0]
+        elif kind == "half-size":
+            s = [float(M // 2), float(r.randint(0, N - 1))]
+        else:
+            den = r.choice([4, 8, 16])
+            s = [r.randint(-M * den, M * den) / den, r.randint(-N * den, N * den) / den]
+        case = {"est": est, "img": "int" if variant == "int16" else "bl", "seed": r.randrange(1 << 30), "M": M, "N": N,
+                "up": up, "shift": s, "kind": kind, "variant": variant}
+        if est == "numpy" and variant in ("f32", "f32-mixed"):
+            case["np_dtype"] = "float32"
+        if est == "torch" and variant.startswith("f32"):
+            case["dtype"] = "float32"
+        bad = variant_case(case)
+        ctx.dist("variant/%s/%s" % (est, variant))
+        ctx.count(("variant", json.dumps(public(case), sort_keys=True)), nontrivial=True)
+        for key, msg in bad:
+            nbad += 1
+            ctx.violation(key, msg, {"kind": "variant", "case": public(case)})
+    ctx.log("dtype / memory-layout variants: %d cases, %d failed clauses" % (len(todo), nbad))
+
+
+def variant_case(case):
+    M, N = case["M"], case["N"]
+    ref = make_image(case["img"], case["seed"], M, N)
+    im = apply_shift(ref, case["shift"])
+    res = run_variant(case, ref, im)
+    bad = [("%s-variant-%s" % (k, case["variant"]), "[input variant %s] %s" % (case["variant"], m))
+           for k, m in oracle(case, ref, im, res, None, None)]
+    if not bad and is_int_shift(case["shift"]):
+        plain = {k: v for k, v in case.items() if k not in ("variant", "np_dtype", "dtype")}
+        base, _ = run_est(plain, ref, im)
+        tol = tol_for(case)
+        if all(math.isfinite(v) for v in base) and max(abs(circ(res[0] - base[0], M)), abs(circ(res[1] - base[1], N))) > 2 * tol:
+            bad.append(("%s-variant-%s-differs-from-contiguous" % (up_class(case), case["variant"]),
+                        "the same image data as %s input gives %s, as contiguous float64 arrays %s (shape %s, shift %s, up %d)"
+                        % (case["variant"], res, base, (M, N), case["shift"], case["up"])))
+    return bad
+
+
+# --------------------------------------------------------------------------- round 3: every factor 1..64
+GEOM_EXPR = ("map (fun up => [Z.of_nat (np_win up); Z.of_nat (du up); Z.of_nat (t_win up); "
+             "Z.of_nat (t_gs up)]) (seq 1%nat 64%nat)")
+
+
+def check_every_factor(ctx: Ctx, geom_vals):
+    """'Identical images give a zero shift for every upsampling factor' and the window geometry
+    (du = ceil(1.5 up), 2 du + 1 samples; torch: ceil(1.5 up) samples, centre floor(./2)) for EVERY factor
+    1..64, the geometry compared with the Coq model's du / np_win / t_win / t_gs"""
+    import torch
+    from quantem.core.utils import imaging_utils as iu
+    r = ctx.rng
+    nbad = 0
+    vals = geom_vals
+    for up in range(1, 65):
+        npw, du_m, tw, tgs = [int(x) for x in vals[up - 1]]
+        problems = []
+        if up > 1:
+            loc = np.asarray(iu.dft_upsample(np.ones((3, 2), dtype=np.complex128), up, (0.0, 0.0)))
+            if loc.shape != (npw, npw):
+                problems.append("dft_upsample window %s, model (2 du + 1 = %d)^2" % (loc.shape, npw))
+        if up > 2:
+            with Capture() as cap:
+                iu.upsampled_correlation_torch(torch.ones((3, 2), dtype=torch.complex128), up,
+                                               torch.tensor([0.0, 0.0], dtype=torch.float64))
+            call = cap.t_calls[0] if cap.t_calls else None
+            if call is None or call["out"].shape != (tw, tw):
+                problems.append("dftUpsample_torch window %s, model ceil(1.5 up) = %d" % (None if call is None else call["out"].shape, tw))
+            elif max(abs(call["center"][0] - tgs), abs(call["center"][1] - tgs)) > 1e-9:
+                problems.append("upsampleCenter for a zero estimate %s, model floor(ceil(1.5 up)/2) = %d" % (call["center"], tgs))
+        ctx.cov["traces_validated_against_impl"] += 1
+        ctx.count(("geom", up), nontrivial=up > 1)
+        # the clause itself, one fresh image and shape per factor and estimator
+        obad = []
+        for est in ("numpy", "torch"):
+            M, N = r.choice(SHAPES)
+            case = {"est": est, "img": "bl", "seed": r.randrange(1 << 30), "M": M, "N": N, "up": up,
+                    "shift": [0.0, 0.0], "kind": "zero"}
+            ref = make_image("bl", case["seed"], M, N)
+            res, _ = run_est(case, ref, ref.copy())
+            ob = oracle(case, ref, ref, res, None, None)
+            ctx.dist("every-factor/%s" % est)
+            ctx.count(("every-factor", json.dumps(public(case), sort_keys=True)), nontrivial=up > 1)
+            for key, msg in ob:
+                nbad += 1
+                obad.append(msg)
+                ctx.violation(key, msg, {"kind": "oracle", "case": public(case), "returned": res})
+        if problems:
+            nbad += 1
+            ctx.cov["disagreements_checked"] += 1
+            ctx.violation("window-geometry-correspondence",
+                          "upsample_factor %d: %s" % (up, "; ".join(problems)),
+                          {"kind": "geom", "up": up, "oracle": obad}, found_input=bool(obad))
+    ctx.log("every factor 1..64: identical images + window geometry, %d failed clauses" % nbad)
+
+
+# --------------------------------------------------------------------------- round 3: the window of identical images
+def check_identical_window(ctx: Ctx):
+    """C13_identical_window_le_centre_* / the symmetry used by C13_identical_zero_*_derived, observed on the
+    implementation: the window the kernels compute for two identical images is bounded by its centre sample
+    and is point symmetric about it (torch, even window: where the mirrored index is in range)"""
+    r = ctx.rng
+    nbad = 0
+    n = ctx.budget(14, 200)
+    for i in range(n):
+        est = "numpy" if i % 2 == 0 else "torch"
+        up = r.choice([2, 3, 4, 5, 8, 16] if est == "numpy" else [3, 4, 5, 6, 7, 8, 16])
+        M, N = r.choice(SHAPES)
+        img = r.choice(["bl", "bl", "int"])
+        case = {"est": est, "img": img, "seed": r.randrange(1 << 30), "M": M, "N": N, "up": up,
+                "shift": [0.0, 0.0], "kind": "zero"}
+        ref = make_image(img, case["seed"], M, N)
+        with Capture() as cap:
+            res, _ = run_est(case, ref, ref.copy())
+        calls = cap.np_calls if est == "numpy" else cap.t_calls
+        problems = []
+        if len(calls) != 1:
+            problems.append("%d upsampling calls" % len(calls))
+        else:
+            loc = calls[0]["out"]
+            W = loc.shape[0]
+            c = du_of(up) if est == "numpy" else du_of(up) // 2
+            # the window is placed on the stage-1 estimate, which is 0 up to rounding: allow its noise
+            # (float64: 1e-9 of the peak; torch kernels are complex64: 3e-6)
+            eps = (1e-9 if est == "numpy" else 3e-6) * abs(loc[c, c])
+            if loc.max() > loc[c, c] + eps:
+                a, b = np.unravel_index(int(np.argmax(loc)), loc.shape)
+                problems.append("sample (%d,%d) = %.9g exceeds the centre sample (%d,%d) = %.9g" % (a, b, loc[a, b], c, c, loc[c, c]))
+            for a in range(W):
+                for b in range(W):
+                    a2, b2 = 2 * c - a, 2 * c - b
+                    if 0 <= a2 < W and 0 <= b2 < W and abs(loc[a, b] - loc[a2, b2]) > 10 * eps:
+                        problems.append("not point symmetric: [%d,%d] = %.9g, [%d,%d] = %.9g" % (a, b, loc[a, b], a2, b2, loc[a2, b2]))
+                        break
+                else:
+                    continue
+                break
+        ctx.cov["traces_validated_against_impl"] += 1
+        ctx.dist("identical-window/%s/up=%d" % (est, up))
+        ctx.count(("identical-window", json.dumps(public(case), sort_keys=True)), nontrivial=True)
+        if problems:
+            nbad += 1
+            ctx.cov["disagreements_checked"] += 1
+            obad = oracle(dict(case), ref, ref, res, None, None)
+            ctx.violation("%s-identical-window-correspondence" % up_class(case),
+                          "the upsampled window of two identical images (shape %s, up %d): %s" % ((M, N), up, "; ".join(problems)),
+                          {"kind": "oracle", "case": public(case), "returned": res, "oracle": [b[1] for b in obad]},
+                          found_input=bool(obad))
+    ctx.log("window of identical images: %d cases, %d disagreements" % (n, nbad))
+
+
+# --------------------------------------------------------------------------- round 3: the callers
+def compact_image(seed, M, N):
+    """zero background, a few Gaussian blobs around the middle: translating it by a few pixels inside the
+    frame is the same as translating it circularly"""
+    g = np.random.default_rng(seed)
+    rr, cc = np.mgrid[0:M, 0:N]
+    im = np.zeros((M, N))
+    for _ in range(4):
+        y0, x0 = g.uniform(M * 0.4, M * 0.6), g.uniform(N * 0.4, N * 0.6)
+        sy, sx = g.uniform(1.0, 2.0), g.uniform(1.0, 2.0)
+        im += g.uniform(0.5, 1.0) * np.exp(-((rr - y0) ** 2 / (2 * sy * sy) + (cc - x0) ** 2 / (2 * sx * sx)))
+    im[im < 1e-9] = 0.0
+    return im
+
+
+def quiet():
+    """the callers print progress bars on stderr"""
+    import contextlib
+    import io
+    return contextlib.redirect_stderr(io.StringIO())
+
+
+def caller_tomography(case):
+    """tomography/utils.cross_correlation_align_stack: each image is registered against the previous ALIGNED
+    image and moved with scipy.ndimage.shift(img, shift=returned): the moved image must reproduce the reference"""
+    from quantem.tomography.utils import cross_correlation_align_stack
+    M, N = case["M"], case["N"]
+    base = compact_image(case["seed"], M, N)
+    stack = np.stack([np.roll(base, (int(d[0]), int(d[1])), axis=(0, 1)) for d in case["shifts"]])
+    with quiet():
+        new, pred = cross_correlation_align_stack(base, stack)
+    bad = []
+    scale = float(np.abs(base).max())
+    for k, d in enumerate(case["shifts"]):
+        p = [float(pred[k][0]), float(pred[k][1])]
+        if max(abs(p[0] + d[0]), abs(p[1] + d[1])) > 1e-6:
+            bad.append(("caller-tomography-align-stack-shift",
+                        "cross_correlation_align_stack: image %d is the reference translated by %s, predicted shift %s "
+                        "(expected %s: translating the image by it reproduces the reference)" % (k, d, p, [-d[0], -d[1]])))
+        err = float(np.abs(np.asarray(new[k]) - base).max()) / scale
+        if err > 1e-6:
+            bad.append(("caller-tomography-align-stack-image",
+                        "cross_correlation_align_stack: aligned image %d (translation %s, predicted shift %s) differs "
+                        "from the reference by %.3g of its maximum" % (k, d, p, err)))
+    return bad
+
+
+def caller_direct_ptycho(case):
+    """direct_ptycho_utils: _compute_reference_shifts / _compute_pairwise_shifts + _synchronize_shifts feed
+    _fourier_shift_stack inside align_vbf_stack_multiscale: the aligned stack must reproduce the reference
+    (reference mode) resp. image 0 (pairwise mode, gauge t_0 = 0)"""
+    import torch
+    from quantem.diffractive_imaging import direct_ptycho_utils as dpu
+    M, N, up, mode = case["M"], case["N"], case["up"], case["mode"]
+    base = bl_image(case["seed"], M, N)
+    ds = case["shifts"]
+    imgs = [apply_shift(base, d) for d in ds]
+    td = torch.float64 if case.get("dtype", "float64") == "float64" else torch.float32
+    vbf = torch.tensor(np.stack(imgs), dtype=td)
+    mask = torch.zeros((4, 4), dtype=torch.bool)
+    for k in range(len(ds)):
+        mask[k // 2 if k < 4 else 2, k % 2 if k < 4 else k - 4] = True
+    ii, jj = torch.where(mask)
+    assert ii.numel() == len(ds)
+    ref_t = torch.tensor(base, dtype=td) if mode == "reference" else None
+    with quiet():
+        gshift, aligned = dpu.align_vbf_stack_multiscale(vbf, mask, ii, jj, bin_factors=(1,), upsample_factor=up,
+                                                         reference=ref_t, verbose=False)
+    gshift = gshift.detach().cpu().numpy().astype(np.float64)
+    aligned = aligned.detach().cpu().numpy().astype(np.float64)
+    target = base if mode == "reference" else imgs[0]
+    d0 = [0.0, 0.0] if mode == "reference" else ds[0]
+    integer = all(is_int_shift(d) for d in ds)
+    tol = 5e-3 if integer else 1.0 / up + 5e-3
+    bad = []
+    scale = float(np.abs(base).max())
+    F = np.fft.fft2(base)
+    for k, d in enumerate(ds):
+        want = [circ(d0[0] - d[0], M), circ(d0[1] - d[1], N)]
+        e = [abs(circ(gshift[k][0] - want[0], M)), abs(circ(gshift[k][1] - want[1], N))]
+        if max(e) > tol:
+            bad.append(("caller-direct-ptycho-%s-shift" % mode,
+                        "align_vbf_stack_multiscale (%s mode, upsample_factor %d): image %d is the base translated by %s, "
+                        "computed shift %s, expected %s within %.3g" % (mode, up, k, d, gshift[k].tolist(), want, tol)))
+            continue
+        # the aligned image vs the target, as far as the shift error allows (same bound as the oracle's)
+        kk = 2 * np.pi * (np.abs(np.fft.fftfreq(M))[:, None] * e[0] + np.abs(np.fft.fftfreq(N))[None, :] * e[1])
+        # (+ 2e-3: the callers keep the shifts in a float32 tensor and may compute in float32)
+        bound = float((np.abs(F) * kk).sum()) / (M * N) / scale + 2e-3
+        err = float(np.abs(aligned[k] - target).max()) / scale
+        if err > bound * 1.01:
+            bad.append(("caller-direct-ptycho-%s-image" % mode,
+                        "align_vbf_stack_multiscale (%s mode): aligned image %d (translation %s, shift %s) differs from "
+                        "the %s by %.3g of its maximum (allowed %.3g)" % (mode, k, d, gshift[k].tolist(),
+                                                                         "reference" if mode == "reference" else "first image", err, bound)))
+    return bad
+
+
+def caller_drift(case):
+    """imaging/drift.DriftCorrection.align_translation: the measured shift of image k against the running
+    reference is added to its knots; afterwards the re-warped images must coincide"""
+    import quantem.imaging.drift as D
+    M, N, up = case["M"], case["N"], case["up"]
+    base = compact_image(case["seed"], M, N)
+    ds = case["shifts"]
+    imgs = [np.roll(base, (int(d[0]), int(d[1])), axis=(0, 1)) for d in ds]
+    with quiet():
+        dc = D.DriftCorrection.from_data([im.copy() for im in imgs], scan_direction_degrees=[case["angle"]] * len(ds))
+        dc.preprocess(pad_fraction=0.25, pad_value=0.0, kde_sigma=0.5, number_knots=case["K"], show_merged=False,
+                      show_images=False)
+        w0 = np.array(dc.images_warped.array, dtype=np.float64)
+        dc.align_translation(upsample_factor=up, show_merged=False)
+        w1 = np.array(dc.images_warped.array, dtype=np.float64)
+    scale = float(np.abs(w0[0]).max())
+    bad = []
+    for k in range(1, len(ds)):
+        before = float(np.abs(w0[k] - w0[0]).max()) / scale
+        after = float(np.abs(w1[k] - w1[0]).max()) / float(np.abs(w1[0]).max())
+        if after > 5e-3:
+            bad.append(("caller-drift-align-translation",
+                        "DriftCorrection.align_translation (scan direction %r deg, upsample_factor %d): image %d is image 0 "
+                        "translated by %s; after the alignment the warped images still differ by %.3g of the maximum "
+                        "(before: %.3g)" % (case["angle"], up, k, [ds[k][0] - ds[0][0], ds[k][1] - ds[0][1]], after, before)))
+    return bad
+
+
+CALLERS = {"tomography": caller_tomography, "direct-ptycho": caller_direct_ptycho, "drift": caller_drift}
+
+
+def gen_caller_cases(ctx: Ctx):
+    r = ctx.rng
+    cases = []
+
+    def small_shifts(n, lim, first_zero=False, frac=False):
+        out = []
+        for k in range(n):
+            if first_zero and k == 0:
+                out.append([0.0, 0.0])
+            elif frac:
+                den = r.choice([4, 8])
+                out.append([r.randint(-lim * den, lim * den) / den, r.randint(-lim * den, lim * den) / den])
+            else:
+                out.append([float(r.randint(-lim, lim)), float(r.randint(-lim, lim))])
+        if all(d == [0.0, 0.0] for d in out):
+            out[-1] = [1.0, -2.0]
+        return out
+
+    for _ in range(ctx.budget(5, 60)):
+        M, N = r.choice([(32, 40), (33, 41), (40, 32), (36, 36), (31, 44)])
+        cases.append({"caller": "tomography", "seed": r.randrange(1 << 30), "M": M, "N": N,
+                      "shifts": small_shifts(r.randint(1, 4), 4)})
+    for i in range(ctx.budget(8, 80)):
+        M, N = r.choice([(16, 16), (20, 24), (21, 17), (24, 24), (15, 20)])
+        mode = "reference" if i % 2 == 0 else "pairwise"
+        frac = mode == "reference" and r.random() < 0.4
+        cases.append({"caller": "direct-ptycho", "seed": r.randrange(1 << 30), "M": M, "N": N, "mode": mode,
+                      "up": r.choice([1, 2, 3, 4, 8]), "dtype": r.choice(["float64", "float64", "float32"]),
+                      # differences between any two images stay below half the size (the pairwise graph
+                      # synchronisation needs consistent, un-wrapped relative shifts)
+                      "shifts": small_shifts(r.randint(2, 6), min(M, N) // 4 - 1, frac=frac)})
+    for _ in range(ctx.budget(5, 50)):
+        M, N = r.choice([(32, 40), (33, 41), (32, 32), (24, 30), (30, 30)])
+        cases.append({"caller": "drift", "seed": r.randrange(1 << 30), "M": M, "N": N,
+                      "angle": r.choice([0, 90, 180, 270]), "up": r.choice([1, 2, 4, 8, 16]), "K": r.choice([1, 2]),
+                      "shifts": small_shifts(r.randint(2, 3), 3, first_zero=True)})
+    return cases
+
+
+def check_callers(ctx: Ctx):
+    """the sign convention through every caller named by the anchors: what each caller does with the returned
+    shift must be 'translate the second image by it to reproduce the first'"""
+    nbad = 0
+    cases = gen_caller_cases(ctx)
+    for case in cases:
+        bad = CALLERS[case["caller"]](case)
+        ctx.dist("caller/%s%s" % (case["caller"], ("/" + case["mode"]) if "mode" in case else ""))
+        ctx.count(("caller", json.dumps(case, sort_keys=True)), nontrivial=True)
+        for key, msg in bad:
+            nbad += 1
+            ctx.violation(key, msg, {"kind": "caller", "case": case})
+    if cases:
+        ctx.sample({"kind": "caller", "case": cases[len(cases) // 2]})
+    ctx.log("callers (drift / tomography / direct ptychography): %d cases, %d failed clauses" % (len(cases), nbad))
+
+
+def check_entry_points(ctx: Ctx):
+    """cross_correlation_shift_torch is align_images_fourier_torch on the two spectra, centred: the two
+    entry points must agree on the same images (batch of pairs taken from one stack tensor)"""
+    import torch
+    from quantem.core.utils import imaging_utils as iu
+    r = ctx.rng
+    nbad = 0
+    n = ctx.budget(10, 150)
+    for _ in range(n):
+        M, N = r.choice(SHAPES)
+        up = r.choice(UPS)
+        seed = r.randrange(1 << 30)
+        s = [float(r.randint(-M, M)), float(r.randint(-N, N))] if r.random() < 0.5 else \
+            [r.randint(-8 * M, 8 * M) / 8, r.randint(-8 * N, 8 * N) / 8]
+        ref = bl_image(seed, M, N)
+        st = torch.tensor(np.stack([ref, apply_shift(ref, s)]))
+        a = iu.cross_correlation_shift_torch(st[0], st[1], upsample_factor=up)
+        G = torch.fft.fft2(st)                                  # both spectra from one batched transform
+        b = iu.align_images_fourier_torch(G[0], G[1], up)
+        ok_type = isinstance(b, torch.Tensor) and tuple(b.shape) == (2,) and isinstance(a, torch.Tensor) and tuple(a.shape) == (2,)
+        case = {"est": "torch", "img": "bl", "seed": seed, "M": M, "N": N, "up": up, "shift": s,
+                "kind": "int" if is_int_shift(s) else "sub", "mode": "fourier"}
+        ctx.dist("entry-points/up=%d" % up)
+        ctx.count(("entry", json.dumps(case, sort_keys=True)), nontrivial=True)
+        if not ok_type:
+            nbad += 1
+            ctx.violation("torch-entry-point-return-type", "the torch estimators must return a tensor of two shifts; got %r / %r"
+                          % (type(a), type(b)), {"kind": "oracle", "case": case})
+            continue
+        d = max(abs(circ(float(a[0]) - float(b[0]), M)), abs(circ(float(a[1]) - float(b[1]), N)))
+        if d > 1e-6:
+            nbad += 1
+            ctx.violation("torch-entry-points-disagree",
+                          "cross_correlation_shift_torch gives %s, align_images_fourier_torch on the spectra of the same images %s "
+                          "(shape %s, shift %s, up %d)" % (a.tolist(), b.tolist(), (M, N), s, up), {"kind": "oracle", "case": case})
+    ctx.log("torch entry points: %d cases, %d failed clauses" % (n, nbad))
 
 
 # --------------------------------------------------------------------------- entry points
@@ -839,18 +1316,39 @@ def run(ctx: Ctx):
         "together: Example C13_nonvacuous_setting); hypotheses on the image content: unique autocorrelation peak, and for "
         "upsampling that the window has its unique maximum at the centre sample with equal neighbours (win_centred)",
     ]
+    ctx.hash_sources("imaging/drift.py", ["DriftCorrection.align_translation"])
+    ctx.hash_sources("tomography/utils.py", ["cross_correlation_align_stack"])
+    ctx.hash_sources("diffractive_imaging/direct_ptycho_utils.py",
+                     ["_synchronize_shifts", "_compute_pairwise_shifts", "_compute_reference_shifts",
+                      "_fourier_shift_stack", "align_vbf_stack_multiscale"])
     ctx.proofs_or_violation()
     check_oracle(ctx)
-    check_coordinates(ctx)
+    check_variants(ctx)
+    check_entry_points(ctx)
+    check_callers(ctx)
+    check_identical_window(ctx)
+    geom_vals = check_coordinates(ctx)
+    check_every_factor(ctx, geom_vals)
     check_correspondence(ctx)
 
 
 def replay(ctx: Ctx, path):
     rp = json.loads(open(path).read())
     case = rp.get("case")
+    if rp.get("kind") == "geom":
+        print("window geometry of upsample_factor %r: re-run ./check C13 (all factors 1..64 are compared on every run)" % rp.get("up"))
+        return 1
     if not case:
         print("nothing to replay in", path, "- re-run ./check C13")
         return 0
+    if rp.get("kind") in ("caller", "variant"):
+        print("case:", case)
+        bad = CALLERS[case["caller"]](dict(case)) if rp["kind"] == "caller" else variant_case(dict(case))
+        for k, msg in bad:
+            print("FAILS [%s]: %s" % (k, msg))
+        if not bad:
+            print("property holds on this case")
+        return 1 if bad else 0
     ref, im, res, img, res_swap = run_case(dict(case))
     bad = oracle(dict(case), ref, im, res, img, res_swap)
     M, N = case["M"], case["N"]
